@@ -67,9 +67,11 @@ IterPeriods ==
 
 (* what one solve_t call leaves behind, from Solver.tla's terminal summaries *)
 ConvIt == Max2(2, cfg.min)      \* the scripted "none" period settles on its second pass
+InfeasibleAt(p) == p - cfg.lags < 1 \/ p + cfg.leads > cfg.L   \* solve_t rejects such a period before anything changes
 Summary(p) ==
   LET f == cfg.fault[p] IN
-  CASE f = "none" -> IF ConvIt <= cfg.max THEN [st |-> ".", it |-> ConvIt, ret |-> "True"]
+  CASE InfeasibleAt(p) -> [st |-> "-", it |-> -1, ret |-> "IndexError"]
+    [] f = "none" -> IF ConvIt <= cfg.max THEN [st |-> ".", it |-> ConvIt, ret |-> "True"]
                      ELSE [st |-> "F", it |-> cfg.max, ret |-> IF cfg.failures = "raise" THEN "NonConvergenceError" ELSE "False"]
     [] f = "div"  -> [st |-> "F", it |-> cfg.max, ret |-> IF cfg.failures = "raise" THEN "NonConvergenceError" ELSE "False"]
     [] f = "nan"  -> CASE cfg.errors = "raise" -> [st |-> "E", it |-> 1, ret |-> "SolutionError"]
@@ -78,7 +80,7 @@ Summary(p) ==
     [] f = "exc"  -> IF cfg.errors = "raise" THEN [st |-> "E", it |-> 1, ret |-> "SolutionError"]
                      ELSE [st |-> "-", it |-> -1, ret |-> "SolutionError"]
 
-Raises(s) == s.ret \in {"SolutionError", "NonConvergenceError"}
+Raises(s) == s.ret \in {"SolutionError", "NonConvergenceError", "IndexError"}
 
 (* interfaces.py:438-451: one iteration of the loop = one solve_t call *)
 Visit ==
@@ -87,7 +89,7 @@ Visit ==
          s == Summary(p)
      IN  /\ visited' = Append(visited, p)
          /\ per' = [per EXCEPT ![p] = [st |-> s.st, it |-> s.it,
-                                       ver |-> IF s.st = "." THEN "done" ELSE IF cfg.fault[p] = "exc" /\ s.st = "-" THEN "init" ELSE "partial"]]
+                                       ver |-> IF s.st = "." THEN "done" ELSE IF s.st = "-" THEN "init" ELSE "partial"]]
          /\ IF Raises(s)
               THEN Finish(s.ret, p) /\ UNCHANGED <<todo, flags>>
               ELSE /\ flags' = Append(flags, s.ret = "True") /\ todo' = Tail(todo)
@@ -136,7 +138,8 @@ C05_Early ==
                     ELSE "SolutionError")
 (* the solved flag is True only for '.' and a skipped period lets the solve move on *)
 C05_SkipMovesOn ==
-  (Done /\ cfg.errors = "skip" /\ cfg.failures = "ignore" /\ ~Early /\ \A p \in 1..cfg.L : cfg.fault[p] # "exc") => res.kind = "returned"
+  (Done /\ cfg.errors = "skip" /\ cfg.failures = "ignore" /\ ~Early /\ \A p \in 1..cfg.L : cfg.fault[p] # "exc"
+        /\ \A i \in 1..Len(Range) : ~InfeasibleAt(Range[i])) => res.kind = "returned"
 
 TypeOK == pc \in {"minmax", "labels", "iter", "loop", "done"}
 =============================================================================
